@@ -5,8 +5,8 @@
     The PARSERS ([Parse], [range_groups]) are third-party, modelled and NOT verified: the theorems take what they
     return as given and are about everything after parsing — the comparison, the closures, the two functions. *)
 From Coq Require Import ZArith List Bool.
-From Low Require Import Lib.Lex Model.Semver Model.Vers Spec.VersSpec
-  Proofs.SemverOrder Proofs.VersProofs Proofs.SemverNoPanic.
+From Low Require Import Lib.Lex Model.Semver Model.Vers Spec.VersSpec Spec.VersPrint
+  Proofs.SemverOrder Proofs.VersProofs Proofs.SemverNoPanic Proofs.SemverPrintParse Proofs.SemverRangeParse.
 Import ListNotations.
 Open Scope Z_scope.
 
@@ -143,6 +143,53 @@ Proof.
                               (fun gs => Check_release_invalid_version ver spec gs)).
 Qed.
 Print Assumptions X01_Check_release_outside_contract.
+
+(** WIDENING — canonical syntax.  On the canonical strings of a structured version / range (Spec/VersPrint.v: what
+    Version.String() prints; comparators in any of their spellings, separated by one space; one spec element per group)
+    the modelled parsers of the library are VERIFIED: they return exactly the structure.  Hence, with no reference to the
+    parsers left, IsCompatible / Check on canonical strings are "the range holds" in the precedence order of the standard —
+    the statement that the /ast operations check against the real code. *)
+Theorem X01_Parse_print : forall v, wf_version v = true -> Parse (version_string v) = Some v.
+Proof. exact Parse_print. Qed.
+Print Assumptions X01_Parse_print.
+
+Theorem X01_range_groups_print : forall gs, sgroups_ok gs = true ->
+  range_groups (join or_sep (map group_string gs)) = Ok (strip gs).
+Proof. exact range_groups_print. Qed.
+Print Assumptions X01_range_groups_print.
+
+Theorem X01_IsCompatible_canonical : forall v gs, wf_version v = true -> sgroups_ok gs = true ->
+  IsCompatible (version_string v) (map group_string gs) = Some (range_holds (strip gs) v).
+Proof. exact IsCompatible_print. Qed.
+Print Assumptions X01_IsCompatible_canonical.
+
+Theorem X01_Check_canonical : forall dbg v gs, wf_version v = true -> sgroups_ok gs = true ->
+  Check dbg (version_string v) (map group_string gs) = Some (range_holds (strip gs) v).
+Proof. exact Check_print. Qed.
+Print Assumptions X01_Check_canonical.
+
+(** non-vacuity of the canonical-syntax theorems: 1.2.3-alpha.1+b7 against  ">1.0.0 <2.0.0-0 || !=4.2.1 ==1.2.3-alpha.1" *)
+Definition x01_v : Version :=
+  {| v_major := 1; v_minor := 2; v_patch := 3;
+     v_pre := [{| pr_str := [97; 108; 112; 104; 97]; pr_num := 0; pr_isnum := false |}; {| pr_str := []; pr_num := 1; pr_isnum := true |}];
+     v_build := [[98; 55]] |}.
+Definition x01_plain (a b c : Z) : Version := {| v_major := a; v_minor := b; v_patch := c; v_pre := []; v_build := [] |}.
+Definition x01_gs : list (list scomp) :=
+  [[(CGT, [62], x01_plain 1 0 0);
+    (CLT, [60], {| v_major := 2; v_minor := 0; v_patch := 0; v_pre := [{| pr_str := []; pr_num := 0; pr_isnum := true |}]; v_build := [] |})];
+   [(CNE, [33; 61], x01_plain 4 2 1);
+    (CEQ, [61; 61], {| v_major := 1; v_minor := 2; v_patch := 3; v_pre := v_pre x01_v; v_build := [] |})]].
+
+Example X01_canonical_nonvacuous :
+  wf_version x01_v = true /\ sgroups_ok x01_gs = true /\
+  version_string x01_v = [49; 46; 50; 46; 51; 45; 97; 108; 112; 104; 97; 46; 49; 43; 98; 55] /\
+  map group_string x01_gs =
+    [[62; 49; 46; 48; 46; 48; 32; 60; 50; 46; 48; 46; 48; 45; 48];
+     [33; 61; 52; 46; 50; 46; 49; 32; 61; 61; 49; 46; 50; 46; 51; 45; 97; 108; 112; 104; 97; 46; 49]] /\
+  IsCompatible (version_string x01_v) (map group_string x01_gs) = Some true /\
+  range_holds (strip x01_gs) x01_v = true /\
+  range_holds (strip x01_gs) (x01_plain 4 2 1) = false.
+Proof. vm_compute. intuition congruence. Qed.
 
 (** non-vacuity: the examples of the package's documentation, pre-release precedence from the standard
     (1.0.0-alpha < 1.0.0-alpha.1 < 1.0.0-alpha.beta < 1.0.0-beta < 1.0.0-beta.2 < 1.0.0-beta.11 < 1.0.0-rc.1 < 1.0.0),
